@@ -149,7 +149,8 @@ FragGold(s) ==
 
 \* transport encodings of one reply (C02): how many challenge rounds precede it and how it is cut
 TransportShapes == [mode : {"single", "source", "goldsrc", "bz2"}, k : 1 .. 4, rounds : 0 .. 3]
-TransportOk(s) == /\ (s.mode = "single") = (s.k = 1)
+\* (a split reply may consist of a single fragment: total = 1, e.g. a compressed reply that fits one datagram)
+TransportOk(s) == /\ (s.mode = "single") => (s.k = 1)
 Transport(s) == [kind |-> 0, items |-> <<>>, expect |-> <<>>]
 
 -----------------------------------------------------------------------------
